@@ -58,6 +58,166 @@ def cli(args, cwd, timeout=30, stdin=None):
     except subprocess.TimeoutExpired:
         return "timeout", b"", b""
 
+# ---------------- the command layer against Model/Cli.v (K.C15.cli) ----------------
+def hx(b): return "x" + binascii.hexlify(b if isinstance(b, bytes) else b.encode()).decode()
+GOOD_A = b"2024-01-01 BUY A 10 @ 1\n2024-06-01 SELL A 5 @ 2\n"
+GOOD_B = b"2024-07-01 BUY B 1 @ 1 USD\n"
+GOOD_NOEOL = b"2023-02-01 BUY C 3 @ 2"
+BAD_PARSE = b"2024-01-01 BUY A ten @ 1\n"
+BAD_CALC = b"2024-01-01 SELL Z 5 @ 2\n"
+def snapshot(wd):
+    out = {}
+    for dp, dn, fn in os.walk(wd):
+        for f in fn:
+            q = os.path.join(dp, f)
+            try: out[os.path.relpath(q, wd)] = open(q, "rb").read()
+            except OSError: out[os.path.relpath(q, wd)] = None
+    return out
+
+def cli_layer(ctx, root):
+    """Scenarios of files, command lines and faults: the effects Model/Cli.v predicts (standard output, files written, exit)
+    from the outcomes of the computations (taken from the library through the harness) against what the built binary does."""
+    rng = ctx.rng
+    files = {"a.cgt": GOOD_A, "b.cgt": GOOD_B, "c.noeol": GOOD_NOEOL, "bad.cgt": BAD_PARSE, "calcbad.cgt": BAD_CALC,
+             "my.ledger.cgt": GOOD_A, "noext": GOOD_B, ".hidden": GOOD_B, "sub.d/x.cgt": GOOD_A, "sub.d/noext": GOOD_B, "empty.cgt": b"", "dots.": GOOD_B}
+    schwab_tx = open("/repo/tests/schwab/synthetic-transactions.json", "rb").read() if os.path.exists("/repo/tests/schwab/synthetic-transactions.json") else b"{}"
+    schwab_aw = open("/repo/tests/schwab/synthetic-awards.json", "rb").read() if os.path.exists("/repo/tests/schwab/synthetic-awards.json") else b"{}"
+    files["s.json"] = schwab_tx; files["aw.json"] = schwab_aw; files["junk.json"] = b"{not json"
+    scen = []
+    for i in range(ctx.n(70, 1200)):
+        kind = rng.choice(["report"] * 6 + ["parse"] * 2 + ["convert"])
+        sc = {"id": "cl%d" % i, "kind": kind, "pre": [], "nowrite": []}
+        out_choices = [None, None, "out.txt", "old.txt", "nodir/out.txt", "sub.d/o.bin", "sub.d"]
+        if kind == "report":
+            k = rng.choice([1, 1, 1, 2, 3])
+            pool = ["a.cgt", "b.cgt", "c.noeol", "my.ledger.cgt", "noext", ".hidden", "sub.d/x.cgt", "sub.d/noext", "empty.cgt", "dots."] * 3 + ["bad.cgt", "calcbad.cgt", "nope.cgt", "sub.d"]
+            sc["files"] = [rng.choice(pool) for _ in range(k)]
+            sc["format"] = rng.choice(["plain", "json", "pdf", "pdf"])
+            sc["year"] = rng.choice([None, None, None, 2024, 2023, 2030, 1800])
+            sc["output"] = rng.choice(out_choices)
+            sc["fx"] = rng.choice([None, None, None, "fx", "nofolder"])
+            if sc["format"] == "pdf" and sc["output"] is None and rng.random() < 0.5:
+                sc["pre"].append("default_pdf")
+        elif kind == "parse":
+            sc["schema"] = rng.random() < 0.2
+            sc["files"] = [] if sc["schema"] and rng.random() < 0.5 else [rng.choice(["a.cgt", "b.cgt", "c.noeol", "bad.cgt", "calcbad.cgt", "nope.cgt", "empty.cgt", "sub.d/x.cgt"]) for _ in range(rng.choice([1, 1, 2, 3]))]
+        else:
+            sc["export"] = rng.choice(["s.json", "s.json", "junk.json", "nope.json", "a.cgt"])
+            sc["awards"] = rng.choice([None, "aw.json", "aw.json", "none.json", "junk.json"])
+            sc["output"] = rng.choice(out_choices)
+        scen.append(sc)
+    # oracles: what the computations give on these inputs (library, through the harness)
+    def joined(fl):
+        cs = []
+        for f in fl:
+            if f not in files: return None
+            cs.append(files[f])
+        return b"\n".join(cs)
+    hc = []; seen = set()
+    for sc in scen:
+        if sc["kind"] in ("report", "parse"):
+            j = joined(sc["files"])
+            if j is None: continue
+            key = (j, sc.get("year") if sc["kind"] == "report" else "parse")
+            if key in seen: continue
+            seen.add(key)
+            try: t = j.decode("utf-8")
+            except UnicodeDecodeError: continue
+            if sc["kind"] == "report": hc.append({"id": "fo:%s:%s" % (hexb(j), sc.get("year")), "op": "format", "dsl": t, **({"year": sc["year"]} if sc.get("year") is not None else {})})
+            hc.append({"id": "pa:%s" % hexb(j), "op": "parse", "text_hex": hexb(j)})
+    conv = {}
+    for ex in ("s.json", "junk.json", "a.cgt"):
+        for aw in (None, "aw.json", "junk.json"):
+            c = {"id": "cv:%s:%s" % (ex, aw), "op": "schwab", "transactions_json": files[ex].decode("utf-8", "replace")}
+            if aw: c["awards_json"] = files[aw].decode("utf-8", "replace")
+            hc.append(c)
+    hr = run.run_harness(hc)
+    def mask(b): return b"\n".join(l for l in b.split(b"\n") if not l.startswith(b"# Converted: "))
+    mc = []; want = {}
+    for sc in scen:
+        lines = []
+        for f, c in files.items(): lines.append("FR %s %s" % (hx(f), hx(c)))
+        exists = set(files) | {"sub.d", "old.txt", "fx"}
+        nowrite = {"nodir/out.txt", "sub.d"}
+        if "default_pdf" in sc["pre"]:
+            fl = sc["files"]
+            if len(fl) == 1:
+                d, _, comp = fl[0].rpartition("/")
+                stem = comp[:comp.rfind(".")] if comp.rfind(".") > 0 else comp
+                dp = (d + "/" if d else "") + stem + ".pdf"
+            else: dp = "report.pdf"
+            sc["default_pdf_path"] = dp; exists.add(dp)
+        for e in sorted(exists): lines.append("FE " + hx(e))
+        for e in sorted(nowrite): lines.append("FNW " + hx(e))
+        o = lambda v: hx(v) if v is not None else "-"
+        if sc["kind"] == "report":
+            j = joined(sc["files"]); fo = hr.get("fo:%s:%s" % (hexb(j), sc.get("year"))) if j is not None else None; pa = hr.get("pa:%s" % hexb(j)) if j is not None else None
+            if j is not None: lines.append("PT %s %d" % (hx(j), 1 if pa and pa.get("ok") else 0))
+            calc_ok = bool(fo and fo.get("ok"))
+            lines.append("OR fx=%d cfg=1 calc=%d plain=%s json=%s pdf=%s" % (0 if sc["fx"] == "nofolder" else 1, 1 if calc_ok else 0,
+                         hx(fo["plain"]) if calc_ok else "-", hx(fo["json"]) if calc_ok else "-", hx(b"%PDF") if calc_ok else "-"))
+            lines.append("RUN cli_report %s %s %s %s %s" % (",".join(hx(f) for f in sc["files"]), sc["year"] if sc["year"] is not None else "-", sc["format"], o(sc["output"]), o(sc["fx"])))
+        elif sc["kind"] == "parse":
+            j = joined(sc["files"]); pa = hr.get("pa:%s" % hexb(j)) if j is not None else None
+            if j is not None: lines.append("PT %s %d" % (hx(j), 1 if pa and pa.get("ok") else 0))
+            lines.append("OR tojson=%s schema=%s" % (hx(pa["json_pretty"]) if pa and pa.get("ok") else "-", hx(b"SCHEMA")))
+            lines.append("RUN cli_parse %s %d" % (",".join(hx(f) for f in sc["files"]) or "-", 1 if sc["schema"] else 0))
+        else:
+            cv = hr.get("cv:%s:%s" % (sc["export"], sc["awards"]))
+            lines.append("OR conv=%s" % (hx(cv["content"]) if cv and cv.get("ok") else "-"))
+            lines.append("RUN cli_convert %s %s %s" % (hx(sc["export"]), o(sc["awards"]), o(sc["output"])))
+        mc.append((sc["id"], lines))
+    mr = run.run_model(mc)
+    for sc in scen:
+        wd = os.path.join(root, sc["id"]); os.makedirs(os.path.join(wd, "sub.d")); os.makedirs(os.path.join(wd, "fx"))
+        for f, c in files.items(): open(os.path.join(wd, f), "wb").write(c)
+        open(os.path.join(wd, "old.txt"), "wb").write(b"OLD")
+        if sc.get("default_pdf_path"): open(os.path.join(wd, sc["default_pdf_path"]), "wb").write(b"SENTINEL")
+        before = snapshot(wd)
+        if sc["kind"] == "report":
+            args = ["report"] + sc["files"] + ["--format", sc["format"]]
+            if sc["year"] is not None: args += ["--year", str(sc["year"])]
+            if sc["output"] is not None: args += ["--output", sc["output"]]
+            if sc["fx"] is not None: args += ["--fx-folder", sc["fx"]]
+        elif sc["kind"] == "parse":
+            args = ["parse"] + sc["files"] + (["--schema"] if sc["schema"] else [])
+        else:
+            args = ["convert", "schwab", sc["export"]] + (["--awards", sc["awards"]] if sc["awards"] else []) + (["--output", sc["output"]] if sc["output"] else [])
+        rc, out, err = cli(args, wd)
+        after = snapshot(wd)
+        changed = {k: v for k, v in after.items() if before.get(k) != v}
+        removed = [k for k in before if k not in after]
+        mm = mr[sc["id"]]
+        ctx.evaluations += 1; ctx.traces += 1
+        ctx.count("cli_layer_" + sc["kind"], "ok" if mm["ok"] else "fail")
+        ctx.nontrivial.add(json.dumps({k: v for k, v in sc.items() if k != "id"}, sort_keys=True, default=str))
+        m_out = b"".join(binascii.unhexlify(e["out"]) for e in mm["effects"] if "out" in e)
+        m_wr = {binascii.unhexlify(e["write"]).decode(): binascii.unhexlify(e["bytes"]) for e in mm["effects"] if "write" in e}
+        what = None; is_prop = False
+        if mm["unknown_content"]: what = "the model joined the files' contents differently from the harness oracle"
+        elif rc == "timeout": what = "the command hangs"; is_prop = True
+        elif sc["kind"] == "parse" and sc.get("schema"):
+            if (rc == 0) != mm["ok"] or (rc == 0 and not out.strip().startswith(b"{")) or changed: what = "schema command: exit %s, %d bytes, changed %s" % (rc, len(out), sorted(changed))
+        elif (rc == 0) != mm["ok"]:
+            what = "exit status %s, model says %s (stderr %s)" % (rc, "success" if mm["ok"] else "failure", err[-160:].decode("utf-8", "replace")); is_prop = (rc != 0 and rc not in (1, 2))
+        elif rc != 0 and (out.strip() or changed or removed):
+            what = "the command fails (exit %s) but has effects: stdout %r, files changed %s" % (rc, out[:80], sorted(changed) + removed); is_prop = True
+        elif rc == 0:
+            if removed or set(changed) != set(m_wr): what = "files written %s, model says %s" % (sorted(changed), sorted(m_wr)); is_prop = any(k == sc.get("default_pdf_path") for k in changed)
+            else:
+                for k, v in changed.items():
+                    if sc["kind"] == "report" and sc["format"] == "pdf":
+                        if not (v or b"").startswith(b"%PDF"): what = "%s is not a PDF" % k
+                    elif mask(v or b"") != mask(m_wr[k]): what = "content of %s differs from the formatter's result (%d vs %d bytes)" % (k, len(v or b""), len(m_wr[k])); is_prop = True
+                if what is None and mask(out) != mask(m_out): what = "standard output differs from the model's: %r vs %r" % (out[:100], m_out[:100]); is_prop = len(out) < len(m_out)
+        if what:
+            ctx.disagreements_checked += 1
+            if is_prop:
+                ctx.violation("`cgt-tool %s`: %s" % (" ".join(args), what), {"args": args, "scenario": {k: v for k, v in sc.items()}, "model": mm, "exit": rc, "stdout": out[:600].decode("utf-8", "replace"), "stderr": err[-300:].decode("utf-8", "replace"), "files_changed": sorted(changed)}, found_input=True)
+            else:
+                ctx.violation("correspondence K.C15.cli broken on `cgt-tool %s`: %s" % (" ".join(args), what), {"args": args, "scenario": {k: v for k, v in sc.items()}, "model": mm, "exit": rc, "stdout": out[:600].decode("utf-8", "replace"), "stderr": err[-300:].decode("utf-8", "replace"), "files_changed": sorted(changed), "correspondence": "K.C15.cli"}, found_input=False)
+        shutil.rmtree(wd, ignore_errors=True)
+
 def k_c15(ctx):
     rng = ctx.rng
     # (a) validator: model vs code vs the property's wording
@@ -212,6 +372,7 @@ def k_c15(ctx):
             # ... and it is written when absent
             wd = fresh(); rc, out, err = cli(["report"] + files + ["--format", "pdf"], wd); ctx.evaluations += 1
             if rc != 0 or not os.path.exists(os.path.join(wd, default)): ctx.violation("report --format pdf with %d input(s) does not write %s (exit %s): %s" % (len(files), default, rc, err[-160:].decode("utf-8", "replace")), {}, found_input=True)
+        cli_layer(ctx, root)
     finally:
         shutil.rmtree(root, ignore_errors=True)
 
